@@ -89,6 +89,52 @@ var sources = []string{
 	"  let q = 2; T | where isnull(a) or x > q | top q by x",
 }
 
+func init() {
+	// for every kind of operator: a program that compiles and one that fails while that operator is being written
+	ops := map[string][2]string{
+		"where":      {"T | where isnull(a) or f(b)", "T | where isnull(a, b)"},
+		"extend":     {"T | extend x = strcat(s, 'a') | extend y = x", "T | extend x = strcat()"},
+		"project":    {"T | project a, b = tolower(s)", "T | project a, b = tolower()"},
+		"summarize":  {"T | summarize n = count(), m = countif(a > 1) by k", "T | summarize n = count(1) by k"},
+		"sort":       {"T | sort by iff(a, 1, 2) desc, b", "T | sort by iff(a, 1)"},
+		"top":        {"T | top 3 by toupper(s) asc", "T | top 3 by toupper(s, s)"},
+		"take":       {"T | take 5", "T | take now(1)"},
+		"join-on":    {"T | join (U) on $left.h == $right.h, not($left.x)", "T | join (U) on $left.h == $right.h, not()"},
+		"join-on2":   {"T | where p | join kind=leftouter (U | where q) on k | count", "T | where p | join kind=leftouter (U | where q) on k, isnull()"},
+		"join-right": {"T | join (U | extend z = iff(a, 1, 2)) on k", "T | join (U | extend z = iff(a)) on k"},
+		"let":        {"let v = strcat('a', 'b'); T | where s == v", "let v = strcat(); T | where s == v"},
+		"render":     {"T | render piechart with (title = 'x')", "T | render"},
+	}
+	var keys []string
+	for k := range ops {
+		keys = append(keys, k)
+	}
+	sort.Strings(keys)
+	for _, k := range keys {
+		sources = append(sources, ops[k][1], ops[k][0])
+	}
+	// names that need escaping (several different ones, so that goroutines differ)
+	for i, n := range []string{"a\"b", "c\\d", "e\"\\f", "g``h", "i\"j\"k", "l m\\", "\"", "\\", "n'o", "p\"q\\r\"s"} {
+		id := "`" + strings.ReplaceAll(n, "`", "``") + "`"
+		sources = append(sources, fmt.Sprintf("%s | where %s == %d | project %s = %s, x%d = 1 | as %s", id, id, i, id, id, i, id))
+	}
+	// long pipelines (a dozen subqueries) with no, one and two failing operators in different places
+	for _, bad := range [][]int{{}, {3}, {3, 9}, {1, 10}, {0, 11}} {
+		var sb strings.Builder
+		sb.WriteString("T")
+		for i := 0; i < 12; i++ {
+			fn := "not(c" + fmt.Sprint(i) + ")"
+			for _, b := range bad {
+				if b == i {
+					fn = []string{"not()", "iff(c, 1)", "isnull(a, b)"}[i%3]
+				}
+			}
+			fmt.Fprintf(&sb, "\n| where %s | project c0, c1, c2, c3, c4, c5, c6, c7, c8, c9, c10, c11", fn)
+		}
+		sources = append(sources, sb.String())
+	}
+}
+
 func optionSet() []*pql.CompileOptions {
 	shared := &pql.CompileOptions{Parameters: map[string]string{"p": "$1", "a": "{a:Int64}", "k": "?"}}
 	return []*pql.CompileOptions{nil, {}, {Parameters: map[string]string{}}, shared}
